@@ -60,7 +60,7 @@ End Cplx.
 Arguments cpx0 {K}. Arguments cmulr {K}. Arguments cmull {K}.
 
 (** the leaves of the generated definitions: transcendental functions and constants, the order
-    tests on floating values, the addition of two samples, and the one constructor that is not
+    tests on floating values, the addition of two samples, and the one sample value that is not
     translated (ParallelPlatesCSR: Airy functions) *)
 Record Leaves (K : Fld) := mkLeaves {
   l_pw : K -> K -> K;          (* std::pow *)
@@ -74,7 +74,7 @@ Record Leaves (K : Fld) := mkLeaves {
   l_leb : K -> K -> bool;      (* a <= b *)
   l_eqb : K -> K -> bool;      (* a == b *)
   l_cadd : cpx K -> cpx K -> cpx K;                 (* std::complex<float> + *)
-  l_PP : Z -> K -> K -> K -> list (cpx K) }.        (* ParallelPlatesCSR(n, f0, f_max, g) *)
+  l_PPs : Z -> K -> K -> K -> Z -> cpx K }.         (* sample i of ParallelPlatesCSR(n, f0, f_max, g) *)
 Arguments l_pw {K}. Arguments l_sq {K}. Arguments l_lg {K}. Arguments l_ab {K}. Arguments l_pi {K}.
 Arguments l_c {K}. Arguments l_Z0 {K}. Arguments l_ltb {K}. Arguments l_leb {K}. Arguments l_eqb {K}.
-Arguments l_cadd {K}. Arguments l_PP {K}.
+Arguments l_cadd {K}. Arguments l_PPs {K}.
